@@ -64,8 +64,12 @@ func Service(name string, fn func()) *expr.ServiceExpr {
 	if s := expr.Root.Service(name); s != nil {
 		oldDSL := s.DSL()
 		s.DSLFunc = func() {
-			oldDSL()
-			fn()
+			if oldDSL != nil {
+				oldDSL()
+			}
+			if fn != nil {
+				fn()
+			}
 		}
 		return s
 	}
